@@ -21,7 +21,17 @@ type refEntry struct {
 
 type refTable struct {
 	e []refEntry // indexed like pool.ops
+	// siteOps[i]: how many operations of the reference passes executed yield site i at
+	// least once (site rarity: what the preemption sweep prefers)
+	siteOps []uint32
 }
+
+// per-process site statistics of the solo executions
+var (
+	siteOpCount []uint32
+	siteEpoch   []uint32
+	soloEpoch   uint32
+)
 
 func (t *refTable) get(k opKey) (uint64, bool) {
 	i, ok := pool.opIdx[k]
@@ -59,7 +69,12 @@ func poolFingerprint() uint64 {
 
 // soloOp executes one operation with nothing else going on and counts its yields.
 func soloOp(k opKey, wantText bool) (opResult, int64) {
-	c := &sim{countOnly: true}
+	if siteOpCount == nil {
+		siteOpCount = make([]uint32, rt.NumSites+1)
+		siteEpoch = make([]uint32, rt.NumSites+1)
+	}
+	soloEpoch++
+	c := &sim{countOnly: true, countSites: true}
 	old := rt.Hook
 	rt.Hook = c
 	r := runOp(k, nil, wantText)
@@ -100,7 +115,7 @@ func computeSlice(i, n int, reverse bool) map[int]refEntry {
 }
 
 // part file: fingerprint, #ops, slice, of, reverse, then (index, hash, steps) records
-const refHdr = 40
+const refHdr = 48
 
 func writeRefPart(path string, part map[int]refEntry, slice, of int, reverse bool) error {
 	buf := make([]byte, 0, refHdr+len(part)*20)
@@ -113,12 +128,18 @@ func writeRefPart(path string, part map[int]refEntry, slice, of int, reverse boo
 		rv = 1
 	}
 	buf = binary.LittleEndian.AppendUint64(buf, rv)
+	buf = binary.LittleEndian.AppendUint64(buf, uint64(len(part)))
 	for j := range pool.ops {
 		if e, ok := part[j]; ok {
 			buf = binary.LittleEndian.AppendUint32(buf, uint32(j))
 			buf = binary.LittleEndian.AppendUint64(buf, e.hash)
 			buf = binary.LittleEndian.AppendUint64(buf, uint64(e.steps))
 		}
+	}
+	// appendix: site statistics
+	buf = binary.LittleEndian.AppendUint32(buf, uint32(len(siteOpCount)))
+	for _, c := range siteOpCount {
+		buf = binary.LittleEndian.AppendUint32(buf, c)
 	}
 	return os.WriteFile(path, buf, 0o644)
 }
@@ -149,7 +170,20 @@ func loadRefs(paths []string) (*refTable, []refConflict, error) {
 			return nil, nil, fmt.Errorf("%s: reference part belongs to a different pool", p)
 		}
 		me := src{int(binary.LittleEndian.Uint64(b[16:])), int(binary.LittleEndian.Uint64(b[24:])), binary.LittleEndian.Uint64(b[32:]) == 1}
-		for o := refHdr; o+20 <= len(b); o += 20 {
+		nrec := int(binary.LittleEndian.Uint64(b[40:]))
+		if refHdr+nrec*20 > len(b) {
+			return nil, nil, fmt.Errorf("%s: truncated", p)
+		}
+		if ap := refHdr + nrec*20; ap+4 <= len(b) {
+			ns := int(binary.LittleEndian.Uint32(b[ap:]))
+			if t.siteOps == nil {
+				t.siteOps = make([]uint32, ns)
+			}
+			for i := 0; i < ns && i < len(t.siteOps) && ap+8+4*i <= len(b); i++ {
+				t.siteOps[i] += binary.LittleEndian.Uint32(b[ap+4+4*i:])
+			}
+		}
+		for o := refHdr; o+20 <= refHdr+nrec*20; o += 20 {
 			j := int(binary.LittleEndian.Uint32(b[o:]))
 			e := refEntry{hash: binary.LittleEndian.Uint64(b[o+4:]), steps: int64(binary.LittleEndian.Uint64(b[o+12:])), have: true}
 			if j >= len(t.e) {
